@@ -248,11 +248,36 @@ class World:
         self.wsgi_app = _default_app
         self.served = []             # (time, worker pid, age, marker)
         self.forks = []              # (time, parent pid, child pid, kind)
+        self.addr = ("127.0.0.1", 8000)
+        self.cproc = None
+        self.clients = []
         SimLogger.WORLD = self
         seams.install_kernel_seams()
         facade.SIM["sim"] = sim
         sim.on_fork = self.on_fork
         sim.programs[MASTER_PROG] = self.master_main
+
+    def add_client(self, name, script):
+        from worlds.worker import Client
+        from simkit.kernel import Proc
+        if getattr(self, "cproc", None) is None:
+            self.cproc = Proc(9, 1, "clients")
+            self.sim.procs[9] = self.cproc
+            self.clients = []
+        c = Client(self, name, script)
+        self.clients.append(c)
+        self.sim.new_task(self.cproc, c.run, name, False)
+        return c
+
+    def use_real_workers(self, kind):
+        """Run the real SyncWorker / ThreadWorker inside this master world (thorough tier)."""
+        from worlds import worker as W
+        helper = W.AppHost(self.sim)
+        self.apphost = helper
+        self.wsgi_app = helper.app
+        W.EvThreadWorker._w3 = W.W3State()
+        self.worker_class = {"sync": W.EvSyncWorker, "gthread": W.EvThreadWorker}[kind]
+        return helper
 
     def script_for(self, age):
         if self.faults_end is not None and self.sim.now >= self.faults_end:
